@@ -28,9 +28,13 @@ class OutOfDomain(Exception):
 class Obj:
     """Model twin of the generated parameter objects Oa / Ob."""
 
-    def __init__(self, cls, args, kwargs):
+    def __init__(self, cls, args, kwargs, pkg=None):
         self.cls = cls
-        if cls == 'Oa':
+        self.written = (list(args), dict(kwargs), pkg)   # the definition as written (plain classes print it)
+        if cls == 'Oe':
+            names = ['k', 'w', 'tag']
+            vals = {'w': 5, 'tag': 't'}
+        elif cls == 'Oa':
             names = ['x', 'y']
             vals = {'y': None}
         elif cls == 'Oc':
@@ -48,6 +52,8 @@ class Obj:
         self.vals = vals
 
     def tcv_canon(self):
+        if self.cls == 'Oe':
+            return ['Oe', _c(self.vals['k']), _c(self.vals['w']), _c(self.vals['tag'])]
         if self.cls == 'Oa':
             return ['Oa', _c(self.vals['x']), _c(self.vals['y'])]
         if self.cls == 'Oc':
@@ -57,6 +63,12 @@ class Obj:
         return ['Ob', _c(self.vals['k']), _c(self.vals['w'])]
 
     def repr(self):
+        if self.cls == 'Oe':
+            # release 1.4.0: '<class path>(<args>, <kw>=<value>, ...)' with the keyword arguments in WRITTEN order
+            args, kwargs, pkg = self.written
+            a = ', '.join(frozen_value_repr(x) for x in args)
+            k = ', '.join(f'{n}={frozen_value_repr(x)}' for n, x in kwargs.items())
+            return f'{pkg}.objs.Oe({a}{", " if a and k else ""}{k})'
         if self.cls == 'Od':
             return 'Od(' + sorted_repr(self.vals['tag']) + ')'
         if self.cls == 'Oc':
@@ -151,11 +163,14 @@ def substitute(v, gv):
     return v
 
 
+PKG = {'name': None}   # package of the generated program under evaluation (plain-class definitions print their path)
+
+
 def instantiate(v):
     if isinstance(v, dict):
         if '__object__' in v:
             return Obj(v['__object__'], [instantiate(a) for a in v.get('args', [])],
-                       {k: instantiate(a) for k, a in v.get('kwargs', {}).items()})
+                       {k: instantiate(a) for k, a in v.get('kwargs', {}).items()}, pkg=PKG['name'])
         return {k: instantiate(x) for k, x in v.items()}
     if isinstance(v, list):
         return [instantiate(x) for x in v]
@@ -253,6 +268,8 @@ def compose(case):
 
 
 def effective_data(case, inst, ctx, gv):
+    from tcv.build import pkg_name   # (a pure function of the program spec)
+    PKG['name'] = pkg_name(case['program'])
     data = dict(inst.node['values'])
     if ctx is not None:
         g, per = ctx
